@@ -304,6 +304,11 @@ func c13Run(c c13Case, res *WRes) {
 		return
 	}
 	if idt != "" && !hasGrant("implicit") {
+		if code == "" {
+			// a purely implicit response (response_type id_token): the ID token is the token the client came for
+			viol("C13/id-token-from-authorize-endpoint-without-implicit-grant/rt="+strings.ReplaceAll(c.RT, " ", "+"), "the authorization endpoint issued an ID token in an implicit response to a client lacking the implicit grant", "refusal", o.Location)
+			return
+		}
 		res.DontCare++ // hybrid code+id_token: whether "tokens" includes this ID token is not decidable from the statement
 	}
 	// (h) a client lacking authorization_code can never turn a code into tokens
